@@ -342,7 +342,8 @@ Theorem auth_eq_spec ev st :
   wf_inputs v ev -> known_deviation v ev st = false ->
   auth_check uid_ok sn_ok verify r ev st = spec_auth uid_ok sn_ok verify v ev st.
 Proof.
-  intros Hwf Hkd. unfold known_deviation in Hkd. apply orb_false_iff in Hkd as [Hpl Hsh].
+  intros Hwf Hkd. unfold known_deviation in Hkd. apply orb_false_iff in Hkd as [Hkd _].
+  apply orb_false_iff in Hkd as [Hpl Hsh].
   unfold wf_inputs, wf_inputsb in Hwf. unfold pl_strict in Hpl.
   unfold auth_check, auth_prog, spec_auth, is.
   destruct (str_eqb (e_type ev) t_create) eqn:Ecreate; [cbn [run]; apply create_eq|].
